@@ -44,10 +44,11 @@ structure Line where
   pick : Option (List Nat) := none   -- chosencases: ids of the listed entries
   src : SrcKind := .file             -- generic JSON provider: the data source
   fileN : Nat := 0                   -- entries of the file (`n` = entries of one pass: the chosen ones)
+  wts : Option (List Nat) := none    -- scenario kinds: the weights of the `fileN` scenarios
 
 def parseSrc : String → Option SrcKind
   | "" => some .file | "file" => some .file | "inline" => some .inline | "rs" => some .readSeeker
-  | "rsc" => some .readSeekCloser | "pipe" => some .reader | "buf" => some .buffer | _ => none
+  | "rsc" => some .readSeekCloser | "rc" => some .readCloser | "pipe" => some .reader | "buf" => some .buffer | _ => none
 
 def parseLine (kv : List (String × String)) : Option Line := do
   let kind ← parseKind (getS kv "kind")
@@ -58,15 +59,22 @@ def parseLine (kv : List (String × String)) : Option Line := do
     | none => pure none
     | some s => (parseNats s).map some
   let src ← parseSrc (getS kv "src")
+  let wts ← match lookup kv "wts" with
+    | none => pure none
+    | some s => (parseNats s).map some
   -- the entries of one pass: with a chosencases option the listed ones
-  let n := match pick with | some p => (chosenOf fileN p).length | none => fileN
+  -- … with scenario weights the spread list
+  let n := match pick, wts with
+    | some p, _ => (chosenOf fileN p).length
+    | none, some ws => (spread ws).length
+    | none, none => fileN
   let cap ← getN? kv "cap"
   let mode ← parseMode (getS kv "mode")
   let cons := (getN? kv "cons").getD 1
   let shots := (getN? kv "shots").getD 0
   let pad := (getN? kv "pad").getD 0
   pure { inp := { kind, preload := getS kv "preload" == "1", b := ⟨limit, passes⟩, cancelAt := if cap = 0 then none else some cap },
-         n, cell := { limit, passes, n, cap, pad, fileN := if pick.isSome then fileN else 0 }, mode, cons, shots, pick, src, fileN,
+         n, cell := { limit, passes, n, cap, pad, fileN := if pick.isSome then fileN else 0 }, mode, cons, shots, pick, src, fileN, wts,
          idle := getS kv "idle" == "1", gate := (getN? kv "gate").getD 0,
          faults := { cfail := (getN? kv "cfail").getD 0, rfail := (getN? kv "rfail").getD 0,
                      rsticky := getS kv "rsticky" == "1", ofail := getS kv "ofail" == "1" } }
@@ -189,7 +197,10 @@ def handle : Handler := fun input impl =>
   | none => ("-", "fail:driver:unparsable input")
   | some l =>
     if l.n = 0 then ("-", "skip:empty-file") else
+    if !(l.inp.kind.boundTy.fits l.cell.limit && l.inp.kind.boundTy.fits l.cell.passes) then ("-", "fail:driver:a bound outside the range of the option's Go type") else
     if l.pick.isSome ∧ !l.inp.kind.hasFilter then ("-", "fail:driver:this kind has no chosencases option") else
+    if l.wts.isSome ∧ !(l.inp.kind == .httpScenario ∨ l.inp.kind == .grpcScenario) then ("-", "fail:driver:only scenario kinds have weights") else
+    if (match l.wts with | some ws => ws.length != l.fileN | none => false) then ("-", "fail:driver:one weight per scenario") else
     if l.src != .file ∧ l.inp.kind != .genericJson then ("-", "fail:driver:only the generic JSON provider has a data source") else
     if !l.src.seekable ∧ (l.mode != .drain ∨ l.faults.any) then ("-", "fail:driver:sources that cannot be rewound are only run in mode drain without faults") else
     let ikv := parseKV impl
